@@ -19,6 +19,25 @@ META = {
 
 _B = "bounded run-time contracts on the real entry points (labelled stand-in, never counted as proved)"
 META.update({
+    "C01": dict(
+        technique="contract-based deductive verification of the patch logic functions (default, ordered, rewrite, undo_redo, ignore_changes, permanent: AST->VC, z3+cvc5), of cmd_paths / _indent_blocks, and slot-convergence lemmas per logic; " + _B + " with an executable device simulator",
+        text="exploration + proved links: each common logic function is proved equal to its spec for every bucket set; lemmas prove that "
+             "executing its commands on a (rule,key) slot turns the old row into the new one under make_pre's bucket invariant (default, "
+             "ordered, undo_redo; rewrite/ignore_changes except in their by-design cases), that removal precedes re-creation, and that the depth "
+             "at which cmd_paths sends a command equals the depth at which patch() shows it. The composition through make_diff/make_pre/"
+             "make_patch is NOT proved: end-to-end convergence, second diff empty and chains are decided by the bounded layer "
+             "(8 rulebook families x 5 vendors x pairs/chains of small trees, device simulator from the statement). 12 known findings.",
+        note="make_diff, make_pre, make_patch, get_order not under discharged contracts; device semantics for %rewrite/%ordered from DESIGN.md",
+    ),
+    "C02": dict(
+        technique="contract-based deductive verification of apply_acl_diff / apply_acl (AST->VC with ADT lists/dicts, z3) relative to the assumed matcher contract + lemmas (no undeletable row stays REMOVED; negations only from REMOVED/MOVED buckets); " + _B,
+        text="exploration + proved links: apply_acl_diff is proved to keep exactly the covered items, in order, with REMOVED turned into AFFECTED "
+             "iff every flag of the governing rule forbids deletion, children filtered by the children rules (any depth); the lemma "
+             "acl_diff_never_removes_undeletable is proved over its spec; logic functions emit a negation only from a REMOVED/MOVED bucket. "
+             "Clauses (a)-(c) end to end through _diff_and_patch with a device simulator and an independent reference ACL matcher: bounded "
+             "layer. 1 known finding (undeletable child removed with a deletable ancestor).",
+        note="relative to the opaque matcher; make_patch not under contract",
+    ),
     "C03": dict(
         technique="contract-based deductive verification of strip_unchanged / mark_unchanged (AST->VC with ADT lists, z3) + idempotence lemma; " + _B + " for the diff construction and the text renderings",
         text="exploration + proved links: strip_unchanged and mark_unchanged are proved equal to their specs for every diff (any length, any depth); "
@@ -74,6 +93,31 @@ META.update({
              "union: bounded layer (random programs <=6 statements, depth<=3). 1 known finding (reverse row of an undeletable rule vanishes).",
         note="merge_dicts, match_row_to_acl(exclusive) and TreeGenerator bookkeeping are not under discharged contracts",
     ),
+    "C11": dict(
+        technique=_B + "; no deductive obligations (collapse/expand and _process_vlandb use sorted(set()), string rendering and chunk comprehensions outside the VC subset)",
+        text="exploration: through the real shipped huawei/cisco/nexus rulebooks and make_patch, for 10 VLAN-list rule kinds: all pairs of subsets of "
+             "a 5-element universe x every splitting over 1-4 lines (quick; thorough up to 8 elements), strided 65,536-pair sweep, random sets of "
+             "1..4094: simulated final set == new set, no VLAN of old&new removed even transiently, expand(collapse(S)) == S. 1 known finding "
+             "(multi_all `undo ... all` wipes VLANs of unchanged lines).",
+        note="bounded stand-in only",
+    ),
+    "C16": dict(
+        technique="effect obligations inferred from the real source of all 49 shipped %logic functions (does not read the UNCHANGED bucket), proved contracts of strip_unchanged / mark_unchanged / the common logic functions + lemma unchanged_bucket_is_not_read; " + _B + " comparing both front ends",
+        text="exploration + proved links: 46 of 49 shipped logic functions are proved (by effect inference over their real source, interprocedural) "
+             "not to read diff[Op.UNCHANGED] or the UNCHANGED buckets of rule_pre/root_pre; strip_unchanged is proved; the common logic "
+             "functions are proved independent of the unchanged bucket. The two real front ends are compared on the shipped corpus, its cross "
+             "products and random trees. 1 fixed (file mode stripped before make_pre), 3 known findings (logic functions that read UNCHANGED, "
+             "latent since the fix).",
+        note="make_pre/make_patch reduction lemmas not proved",
+    ),
+    "C17": dict(
+        technique="contract-based deductive verification of implicit.config (AST->VC, nested loops, comprehension; z3+cvc5) + lemmas on the logic functions (an unchanged-only bucket emits nothing); " + _B,
+        text="exploration + proved links: implicit.config is proved equal to its rule-by-rule spec for every tree and rule set (default row added "
+             "iff the rule is not match-only, no line matches and the row is absent; recursion under matching lines), relative to the opaque "
+             "regex matcher; unchanged_only_emits_nothing is proved for the common logics. Sub-tree, iff, idempotence and the patch clause "
+             "on 18 hardware models: bounded layer. 2 known findings.",
+        note="merge_dicts not under contract; L-C17a-d bounded only",
+    ),
     "C13": dict(
         technique=_B + "; no deductive obligations (jsonpointer/jsonpatch/fnmatch cannot be brought under contract)",
         text="exploration: fragment confinement, idempotence, patch round trip, filters return sub-documents, inputs unmodified, chaining = sequential "
@@ -118,7 +162,7 @@ _PENDING = "check not built yet in this round (planned in DESIGN.md section 5); 
 NOT_APPLICABLE = {
     "C12": "schedules / fault sequences of an OS process pool (multiprocessing queues, worker exit codes): no contract on a call or a data structure expresses it and no verifier here models multiprocessing; a proof would be about a hand-written model, which is a different family (DESIGN.md section 5, C12)",
 }
-for _p in ["C01", "C02", "C11", "C16", "C17"]:
+for _p in []:
     NOT_APPLICABLE.setdefault(_p, _PENDING)
 NOTES = ("Exit codes of every check: 0 held, 1 VIOLATION, 2 undecided, 3 checker broken. Level 'proof' is claimed only where every "
          "clause is covered by discharged obligations; everything bounded is labelled and never added to obligations/discharged.")
